@@ -10,6 +10,8 @@ from pathlib import Path
 
 VERIF = Path(__file__).resolve().parent.parent
 pid, root = sys.argv[1], sys.argv[2]
+NCH = int(sys.argv[sys.argv.index('--n') + 1]) if '--n' in sys.argv else 3
+NEUTRAL = '--neutral' in sys.argv   # wave 6: no list of earlier changes, no style hints - a plain estimate of first-run detection
 prop = next(p for p in map(json.loads, open(VERIF / 'properties.jsonl')) if p['id'] == pid)
 wt = f'{root}/{pid}'
 anchors = '; '.join(f"{m['name']} ({m['where']})" for m in prop['anchors'].get('mechanism', []))
@@ -32,9 +34,9 @@ THE PROPERTY ({pid}: {prop['title']})
 Quantifier: {prop['quantifier']['text']}
 Code anchors: {anchors}
 
-YOUR TASK: produce 3 DIFFERENT changes to the .py sources (each an independent alternative, not cumulative) that each BREAK this property while (a) the package still imports and (b) the existing test suite passes exactly as before (same 542 passing tests). Prefer changes that need something specific to manifest - an unusual input, a boundary value, a particular ordering / interleaving / completion order, a multi-step sequence of operations, a particular option combination, or two cooperating sites that each look fine alone - NOT ones that any ordinary use would expose at once. They should look like plausible refactorings / optimisations / "fixes" a maintainer might commit.
+YOUR TASK: produce {NCH} DIFFERENT changes to the .py sources (each an independent alternative, not cumulative) that each BREAK this property while (a) the package still imports and (b) the existing test suite passes exactly as before (same 542 passing tests). Prefer changes that need something specific to manifest - an unusual input, a boundary value, a particular ordering / interleaving / completion order, a multi-step sequence of operations, a particular option combination, or two cooperating sites that each look fine alone - NOT ones that any ordinary use would expose at once. They should look like plausible refactorings / optimisations / "fixes" a maintainer might commit.
 
-For EACH change i = 1..3, create the directory {wt}/seeded/m<i>/ containing:
+For EACH change i = 1..{NCH}, create the directory {wt}/seeded/m<i>/ containing:
   - patch.diff   : `git diff` of the change against the worktree HEAD (sources only; produce it, then `git checkout -- src` before starting the next change so changes are independent)
   - demo.py      : a small stand-alone program (run as `PYTHONPATH=<tree>/src /venv/bin/python demo.py`) that exits 0 on the unmodified tree and exits non-zero (assertion failure) on the tree with patch.diff applied, demonstrating the violation of the property with a concrete input
   - meta.json    : {{"property": "{pid}", "summary": "...what was changed...", "needs": "...what specific input / order / option is needed for it to manifest...", "files": [...]}}
@@ -42,10 +44,14 @@ Verify each one yourself: apply patch -> run the full test suite (must still sho
 
 Finish with `git checkout -- src` so the worktree sources are unmodified (the seeded/ directory stays, untracked). Final report: for each change one line: what it is, which file, what it needs to manifest, and whether all verifications succeeded.
 
-ADDITIONAL INSTRUCTIONS FOR THIS ROUND: earlier rounds already produced the following changes for this property; produce three that are DIFFERENT IN KIND from all of them (not variations):
+@@EXTRA@@"""
+EXTRA_TEXT = f"""ADDITIONAL INSTRUCTIONS FOR THIS ROUND: earlier rounds already produced the following changes for this property; produce three that are DIFFERENT IN KIND from all of them (not variations):
 {chr(10).join(earlier) if earlier else '  (none)'}
 Favour these styles, one each if you can: (a) state carried across calls or objects within one process (caches, memoisation, module-level or class-level defaults, mutated shared arguments, objects reused after an earlier failure); (b) two cooperating sites in different functions or files that each look harmless alone; (c) a numeric / size / type boundary or an unusual-but-legal option combination or input form (symbolic links, read-only or strided arrays, numpy scalars, unusual but legal file layouts, timezone-aware values, documented `None` parameters ...). Shared utility modules (src/gambit/util/*.py, src/gambit/seq.py, src/gambit/sigs/base.py, src/gambit/cli/common.py, ...) are fair game as long as the property above is what breaks. If while exploring you notice a defect of the UNMODIFIED tree that violates the property, mention it at the end of your report with the exact reproducing input (do not use it as a seed).
 """
+NEUTRAL_TEXT = """If while exploring you notice a defect of the UNMODIFIED tree that violates the property, mention it at the end of your report with the exact reproducing input (do not use it as a seed).
+"""
+text = text.replace("@@EXTRA@@", NEUTRAL_TEXT if NEUTRAL else EXTRA_TEXT)
 out = Path(root) / '_briefs' / f'{pid}.txt'
 out.parent.mkdir(parents=True, exist_ok=True)
 out.write_text(text)
